@@ -1,7 +1,7 @@
 """C19 — abandoned or failing calls are cancelled and never wedge the server."""
 import mir
 from mir import callee
-from common import controlling_edges, switch_expr, switch_meaning, switch_edges, select_info
+from common import *  # noqa: F401,F403
 from rtc_common import *  # noqa: F401,F403
 
 THOROUGH_CONFIGS = ["full-codecs", "json-codec", "tests"]
